@@ -862,7 +862,33 @@ pub fn run(env: &Env) -> i32 {
         violations: violations.len(),
     }
     .write();
-    conclude("C02", &violations)
+    let reproduce = |v: &Value| -> Option<String> {
+        // the stored case of a listed finding is judged by the clauses that need no twin
+        let case: Case = serde_json::from_value(v["case"].clone()).ok()?;
+        let named: Vec<String> = serde_json::from_value(v["named"].clone()).unwrap_or_default();
+        let defs: Vec<(String, String)> = serde_json::from_value(v["defs"].clone()).unwrap_or_default();
+        let class = v["class"].as_str().unwrap_or("none").to_string();
+        let o = runner.run(&case).ok()?;
+        if crashed(&o) {
+            return None;
+        }
+        if clean_verdict_justified(&o, &named, &defs).is_err() {
+            return Some(format!("unjustified-clean:{class}"));
+        }
+        // the drop invariant needs the layout: re-plant from (seed, index) is not possible for a
+        // stored case, so approximate by counting the analysing lines per (kind, name)
+        let out = parse_stdout(&o.stdout);
+        let no_error = !out.diags.iter().any(|d| d.severity == "error");
+        for (kind, name) in &defs {
+            let want = defs.iter().filter(|(k, n)| k == kind && n == name).count();
+            let got = out.analyzing.iter().filter(|(k, n)| k == kind && n == name).count();
+            if got < want && no_error {
+                return Some(format!("silently-dropped-definition:{class}"));
+            }
+        }
+        None
+    };
+    crate::report::conclude_with("C02", &violations, Some(&reproduce))
 }
 
 pub fn replay(env: &Env, v: &Value) -> i32 {
